@@ -43,6 +43,11 @@ func (x *Exec) call(fr *Frame, st *State, ci ssa.CallInstruction) []string {
 	res := x.callInner(fr, st, ci)
 	if fr.depth == 0 && fr.contract != nil && len(fr.contract.OnCall) > 0 {
 		name := calleeShortName(ci.Common())
+		if name == "" {
+			if vn := dynCallName(ci.Common()); strings.HasPrefix(vn, "var:") {
+				name = vn
+			}
+		}
 		if os.Getenv("GOVC_DEBUG_ONCALL") != "" {
 			fmt.Fprintf(os.Stderr, "on-call candidate %q in %s\n", name, shortFn(fr.fn))
 		}
@@ -91,6 +96,22 @@ func calleeShortName(c *ssa.CallCommon) string {
 			n = n[:i] // instantiation: Acquire[T] -> Acquire
 		}
 		return n
+	}
+	return ""
+}
+
+// dynCallName: the name hooks use for a call instruction: the callee's short name, or var:<v> for a
+// call through the local function variable v.
+func dynCallName(c *ssa.CallCommon) string {
+	if n := calleeShortName(c); n != "" {
+		return n
+	}
+	if !c.IsInvoke() {
+		if u, ok := c.Value.(*ssa.UnOp); ok && u.Op == token.MUL {
+			if a, ok := u.X.(*ssa.Alloc); ok && a.Comment != "" {
+				return "var:" + a.Comment
+			}
+		}
 	}
 	return ""
 }
